@@ -51,13 +51,13 @@ import xdsl as _xdsl  # noqa: E402
 
 REPO = os.path.dirname(os.path.dirname(os.path.abspath(_xdsl.__file__)))
 CACHE_DIR = os.path.join(VERIF_DIR, ".cache")
-STEP_K = 400  # step budget = STEP_K * (len(text) + 64) PY_START events; see calibrate()
-CPU_BASE_S = 3.0
-CPU_PER_CHAR_S = 0.002
+STEP_K = 1500  # step budget = STEP_K * (len(text) + 64) PY_START events; see calibrate()
+CPU_BASE_S = 1.5
+CPU_PER_CHAR_S = 0.0005
 ENUM_MAX_LEN = 8192
 ENUM_SLICES = 64
 FLIP_ALPHABET = "(){}[]<>%^#!@:,=-+*?|\"0x9.e\\ \n\t\x00é中²١\x0b\x0c'/~`"
-FAULT_KINDS = ("eof", "drop", "flip", "dup", "swap", "torn", "splice", "crlf", "bom", "utf8cut", "insert")
+FAULT_KINDS = ("eof", "drop", "flip", "dup", "swap", "torn", "splice", "crlf", "bom", "utf8cut", "insert", "stutter")
 
 
 class StepBudgetExceeded(BaseException):
@@ -371,6 +371,13 @@ def apply_fault(s: Stream, text: str, toks: list[tuple[int, int, str]], corpus: 
         ln = 1 + s.choice(80)
         text = text[:k] + other[q : q + ln] + text[k:]
         desc = f"splice@{k}+{ln}"
+    elif kind == "stutter":
+        # a short span re-delivered many times (stuck write)
+        p = _pos(s, text, toks, allow_end=False)
+        ln = 1 + s.choice(4)
+        reps = (2, 8, 40, 300, 1200, 5000)[s.weighted((3, 3, 3, 2, 2, 1))]
+        text = text[: p + ln] + text[p : p + ln] * reps + text[p + ln :]
+        desc = f"stutter[{p},{p + ln})x{reps}"
     elif kind == "crlf":
         text = text.replace("\n", "\r\n")
     elif kind == "bom":
@@ -404,6 +411,7 @@ def _token_kind_at(toks: list[tuple[int, int, str]], k: int) -> str:
 
 _CORPUS: Corpus | None = None
 _JUDGE: Judge | None = None
+_CONFIRMED: Counter[Any] = Counter()
 
 
 def _enum_task(args: tuple[int, int, int, int]) -> tuple[Counter[str], list[tuple[int, dict[str, Any], Violation]], int, int]:
@@ -427,6 +435,9 @@ def _enum_task(args: tuple[int, int, int, int]) -> tuple[Counter[str], list[tupl
             for v in ([r.violation] if r.violation else []) + r.extra_violations:
                 if len(viols) < 20:
                     viols.append((-1, rec, v))
+            if sum(1 for _, _, v in viols if v.oracle.startswith("T-")) >= 6:
+                st["enum.chunk_cut_short_after_repeated_timeouts"] += 1
+                return st, viols, done, maxev
     return st, viols, done, maxev
 
 
@@ -439,7 +450,7 @@ class StreamEngine(Engine):
     engine_name = "streamsim"
     level = "fault_enumeration"
     tiers = {
-        "quick": {"runs": 24_000, "wall_cap_s": 300, "samples": 3},
+        "quick": {"runs": 16_000, "wall_cap_s": 240, "samples": 3},
         "thorough": {"runs": 1_500_000, "wall_cap_s": 1500, "samples": 3},
     }
     shrink_order = ("faults", "cfg")
@@ -510,10 +521,16 @@ class StreamEngine(Engine):
         out = judge.parse(damaged, wl)
         oc = out["outcome"]
         if oc == "timeout":
-            # confirm: two re-executions with a doubled CPU budget
-            again = [judge.parse(damaged, wl, 2.0)["outcome"] for _ in range(2)]
-            if not all(a == "timeout" for a in again):
-                oc = "slow-but-finished"
+            # confirm by re-executions with a doubled CPU budget (skipped once the same
+            # site has been confirmed three times in this process: a real hang must not
+            # cost minutes per input)
+            site = out["site"]
+            if _CONFIRMED[site] < 3:
+                again = [judge.parse(damaged, wl, 2.0)["outcome"] for _ in range(2)]
+                if all(a == "timeout" for a in again):
+                    _CONFIRMED[site] += 1
+                else:
+                    oc = "slow-but-finished"
         st[f"outcome.{'W1' if wl == 0 else 'W2'}.{oc}"] += 1
         res.steps = out["events"]
         viol: Violation | None = None
@@ -577,7 +594,7 @@ class StreamEngine(Engine):
                     done += d
                     maxev = max(maxev, m)
                     chunks_done += 1
-                    if time.monotonic() - t0 > cap and not capped:
+                    if (time.monotonic() - t0 > cap or len(viols) >= 80) and not capped:
                         capped = True
                         for g in futs:
                             g.cancel()
@@ -604,7 +621,7 @@ class StreamEngine(Engine):
         return (
             "one case = one corpus chunk (generic-form/builtin-only 'W1' or original/all-dialects 'W2') damaged by a fault "
             "sequence, parsed and verified once under the step clock and the CPU watchdog; enumerated tier: every "
-            "(chunk, eof@k) and (chunk, drop@k) of the selected offset slice; sampled tier: 1-3 faults of 11 kinds; "
+            "(chunk, eof@k) and (chunk, drop@k) of the selected offset slice; sampled tier: 1-3 faults of 12 kinds; "
             "non-trivial = the damaged text differs from the stored text; distinct = distinct damaged texts (crc+length)"
         )
 
